@@ -70,7 +70,8 @@ Definition interp_pos (n m j : nat) : Q := Qn j * Qn (n - 1) / Qn (m - 1).
 Definition interp_series (m : nat) (s : series) : series :=
   map (fun j => interp_at s (interp_pos (length s) m j)) (seq 0 m).
 Definition interp_apply (m : nat) (p : panel) : res panel :=
-  if (min_len p <? 2)%nat then Err else Ok (map_cells (interp_series m) p).
+  (* a one-point series can only be sampled at its own point (m = 1) *)
+  if (min_len p <? 2)%nat && (2 <=? m)%nat then Err else Ok (map_cells (interp_series m) p).
 
 (* ------------------------------------------------------------------------------------------ *)
 (* Tabularizer / ColumnConcatenator: np.hstack of the per-column 2-d arrays: column-then-time.
@@ -329,6 +330,12 @@ Definition impute_core (m : imethod) (l : oseries) : oseries :=
       end
   end.
 Definition impute (m : imethod) (l : oseries) : oseries := final_fill (impute_core m l).
+(* a trend cannot be fitted when nothing is observed (the forecaster rejects all-NaN input) *)
+Definition impute_res (m : imethod) (l : oseries) : res oseries :=
+  match m, observed l with
+  | IDrift, [] => Err
+  | _, _ => Ok (impute m l)
+  end.
 (* the unchanged code for "drift": ffill/bfill happens BEFORE the fit, nothing is left to fill *)
 Definition impute_drift_faithful (l : oseries) : oseries := final_fill l.
 
